@@ -415,7 +415,7 @@ impl Prop for Accessor {
         "C06/accessor".into()
     }
     fn rule(&self) -> String {
-        "same hierarchies at width 8, executed: a distinctive pointer value is written at offset 0 of a zeroed object (where the pointer of the type itself or of its chain of first bases lives) and `vftable()` is called; oracle: it returns exactly that value, for every type that owns or inherits a table. Non-trivial: >=1 type that inherits its pointer through a base".into()
+        "same hierarchies at width 8, executed: a distinctive pointer value is written into a zeroed object where the pointer of the type itself or of its chain of first bases lives (offset 0 for an owner, else the sum of the first-base offsets; half of the programs put gaps in front of such bases) and `vftable()` is called; oracle: it returns exactly that value, for every type that owns or inherits a table. Non-trivial: >=1 type that inherits its pointer through a base".into()
     }
     fn gen(&self, t: &mut Tape) -> Case {
         let mut cfg = l3_cfg(t);
@@ -425,6 +425,12 @@ impl Prop for Accessor {
         cfg.enums = false;
         cfg.ext_vals = false;
         cfg.singletons = false;
+        // the shared pointer lives in the first base wherever that base sits (also behind a member or a gap)
+        cfg.vft_base_anywhere = t.chance(1, 2);
+        // a third of the programs are mostly packed types (hierarchies of packed types then exist)
+        if t.chance(1, 3) {
+            cfg.packed_den = 2;
+        }
         let (mut prog, _, _) = gen_prog(t, cfg);
         if t.chance(1, 5) {
             name_member_vftable(t, &mut prog);
